@@ -4,6 +4,7 @@ package main
 // the pieces of the memory model for maps, interfaces and string iteration.
 
 import (
+	"fmt"
 	"go/types"
 	"strings"
 
@@ -281,14 +282,126 @@ func (x *Exec) invoke(st *State, c *ssa.Call, recv SV, args []SV) SV {
 	return SV{}
 }
 
-func (x *Exec) dynamicCall(st *State, c *ssa.Call, fv SV, args []SV) SV {
-	x.fail("call through a function value")
-	return SV{}
+func sigString(t types.Type) string {
+	sig, ok := t.Underlying().(*types.Signature)
+	if !ok {
+		return t.String()
+	}
+	// parameter names are irrelevant
+	var ps, rs []string
+	q := func(p *types.Package) string {
+		if p.Path() == modulePath || p.Path() == modulePath+"/format" {
+			return ""
+		}
+		return p.Name()
+	}
+	for i := 0; i < sig.Params().Len(); i++ {
+		ps = append(ps, types.TypeString(sig.Params().At(i).Type(), q))
+	}
+	for i := 0; i < sig.Results().Len(); i++ {
+		rs = append(rs, types.TypeString(sig.Results().At(i).Type(), q))
+	}
+	s := "func(" + strings.Join(ps, ", ") + ")"
+	if len(rs) == 1 {
+		s += " " + rs[0]
+	} else if len(rs) > 1 {
+		s += " (" + strings.Join(rs, ", ") + ")"
+	}
+	return s
 }
 
-func (x *Exec) mapUpdate(st *State, i *ssa.MapUpdate)  { x.fail("map update") }
-func (x *Exec) mapLookup(st *State, i *ssa.Lookup) SV  { x.fail("map lookup"); return SV{} }
-func (x *Exec) mapDelete(st *State, c *ssa.Call)       { x.fail("map delete") }
+// pureCallResult: the deterministic result of calling a pure callback.
+func (x *Exec) pureCallResult(fid *Term, sig string, rt types.Type, args []SV) SV {
+	var flat []*Term
+	flat = append(flat, fid)
+	for _, a := range args {
+		flat = append(flat, x.leafTerms(a)...)
+	}
+	var ts []*Term
+	for _, lf := range leavesOf(rt) {
+		ts = append(ts, App("pcall."+sig+lf.suffix, lf.sort, flat...))
+	}
+	sv, _ := x.fromLeaves(rt, ts)
+	return sv
+}
+
+func (x *Exec) dynamicCall(st *State, c *ssa.Call, fv SV, args []SV) SV {
+	sig := sigString(c.Call.Value.Type())
+	mode := x.prog.contracts.Callbacks[sig]
+	if mode == "" {
+		x.fail("call through a function value of type %s (no callback contract)", sig)
+	}
+	var fid *Term
+	if fv.Fn != nil {
+		fid = x.funcID(fv)
+	} else {
+		fid = fv.T
+	}
+	if fid == nil {
+		x.fail("function value without identity")
+	}
+	if fv.Fn == nil {
+		x.safe(st, "nil", Ne(fid, IntC(0)), "call of a nil function value", c.Pos())
+	}
+	// site obligations of the enclosing function's contract
+	if x.fc != nil && len(st.frames) == 1 {
+		if cls := x.fc.CallSites[sig]; len(cls) > 0 {
+			env := x.contractEnv(st, nil, st.entry)
+			x.bindLocals(env, st.top(), nil)
+			f := fv
+			f.T = fid
+			env.vars["$f"] = f
+			for i, a := range args {
+				env.vars[fmt.Sprintf("$%d", i)] = a
+			}
+			n := x.dynCallOrdinal(c, sig)
+			for _, cl := range cls {
+				x.assert(st, fmt.Sprintf("site:call:%s#%d:%s", sig, n, cl.Label), env.evalBool(cl.Expr), cl.Text, c.Pos())
+			}
+		}
+	}
+	rt := c.Type()
+	if mode == "pure" {
+		if tt, ok := rt.(*types.Tuple); ok && tt.Len() == 0 {
+			return SV{K: KTuple}
+		}
+		res := x.pureCallResult(fid, sig, rt, args)
+		x.assumeTypeInv(st, res)
+		if ens := x.prog.contracts.CallbackEnsures[sig]; ens != nil {
+			env := &CEnv{x: x, vars: map[string]SV{"result": res}, cur: st.heap, qn: &x.qn}
+			st.assume(env.evalBool(ens))
+		}
+		return res
+	}
+	// impure callback: arbitrary result; it does not write library-owned memory (standing assumption)
+	if tt, ok := rt.(*types.Tuple); ok && tt.Len() == 0 {
+		return SV{K: KTuple}
+	}
+	return x.freshOf(st, rt, "cb")
+}
+
+func (x *Exec) dynCallOrdinal(c *ssa.Call, sig string) int {
+	n := 0
+	for _, b := range c.Parent().Blocks {
+		for _, in := range b.Instrs {
+			if cc, ok := in.(*ssa.Call); ok {
+				if cc == c {
+					return n
+				}
+				if cc.Common().StaticCallee() == nil && !cc.Common().IsInvoke() {
+					if _, isB := cc.Common().Value.(*ssa.Builtin); !isB && sigString(cc.Common().Value.Type()) == sig {
+						n++
+					}
+				}
+			}
+		}
+	}
+	return n
+}
+
+func (x *Exec) mapUpdate(st *State, i *ssa.MapUpdate)    { x.fail("map update") }
+func (x *Exec) mapLookup(st *State, i *ssa.Lookup) SV    { x.fail("map lookup"); return SV{} }
+func (x *Exec) mapDelete(st *State, c *ssa.Call)         { x.fail("map delete") }
 func (x *Exec) initMap(st *State, r *Term, t types.Type) {}
 
 func (x *Exec) makeInterface(st *State, v SV, from, to types.Type) SV {
